@@ -48,6 +48,17 @@ theorem C27_receive_order : Arc.Generated.C27.receiveSkeleton =
     ["index.Lookup", "backend.Exists", "resolveExisting", "stage", "hash-check", "promote", "register",
      "recordReceived"] := by decide
 
+/-- **C27_receipt_before_exists.** In the current `Receive` the compacted-receipt pre-check
+(`index.Lookup`) comes BEFORE the storage-existence branch (`backend.Exists` → `resolveExisting`), as
+in the model's `receive` (`compactedSha` is matched first). Otherwise a redelivery that arrives between
+hub compaction's mark and its source deletion goes through `resolveExisting`, whose re-record clears
+`compacted_at` — and the file is later accepted a second time. -/
+theorem C27_receipt_before_exists :
+    Arc.Generated.C27.receiveSkeleton.idxOf "index.Lookup" <
+      Arc.Generated.C27.receiveSkeleton.idxOf "backend.Exists" ∧
+    Arc.Generated.C27.receiveSkeleton.idxOf "backend.Exists" <
+      Arc.Generated.C27.receiveSkeleton.idxOf "resolveExisting" := by decide
+
 theorem C27_initial_state_tied : Arc.Generated.C27.initialState = St.pending.name := by decide
 
 /-- **C27_recover_every_pass.** In the current `agent.go`, `Agent.Run` itself calls
@@ -423,6 +434,7 @@ inductive HEv
   | recv (q : Req)
   | recon                       -- a reconcile batch naming this path (confirmPresent + ForgetBatch)
   | compact (del : Bool)        -- hub compaction consumed the file (MarkCompacted, then delete)
+  | cdel                        -- hub compaction's deferred source deletion (retry after a failed delete)
   | sweep                       -- SweepStaging
   | delete                      -- genuine hub-side removal (retention / rm); the index is not told
   | plant (b : Bytes) (indexed : Bool)   -- foreign content at the path (spoke-ID collision)
@@ -431,6 +443,7 @@ def hstep (H : Bytes → Bytes) (o : HObj) : HEv → HObj
   | .recv q => (receive H o q).1
   | .recon => forgetStale o
   | .compact del => hubCompact o del
+  | .cdel => hubCompactDelete o
   | .sweep => hubSweep o
   | .delete => hubDelete o
   | .plant b i => hubPlant H o b i
@@ -528,6 +541,7 @@ theorem hstep_content (H : Bytes → Bytes) (hcf : CollisionFree H) (orig : Byte
     cases del
     · simpa [ContentOK] using h
     · simp
+  | cdel => simp [hstep, hubCompactDelete, ContentOK]
   | sweep => simpa [hstep, hubSweep, ContentOK] using h
   | delete => simp [hstep, hubDelete, ContentOK]
   | plant b i => simp [isPlant] at hnp
@@ -564,6 +578,62 @@ example :
     let q (off : Nat) (body : Bytes) : Req := { sha := orig, size := 4, off := off, body := body, bodyErr := false, failRec := false }
     (hrun id {} [.recv (q 0 [1, 2]), .recv (q 2 [9, 4]), .recv (q 2 [3, 4]), .recv (q 0 [1, 2, 3, 4])]).final = some orig ∧
     (hrun id {} [.recv (q 0 [1, 2]), .recv (q 2 [9, 4])]).final = none := by decide
+
+/-! ### compaction jobs: mark, then (possibly much later) delete the source -/
+
+/-- ghost: a compaction job has stamped this object's receipt while its file existed, and no genuine
+removal / foreign writer has intervened since. -/
+def mAfter (o : HObj) (m : Bool) : HEv → Bool
+  | .compact _ => o.final.isSome || m
+  | .delete => false
+  | .plant _ _ => false
+  | _ => m
+
+/-- environment well-formedness: a deferred source deletion belongs to a job that stamped the object. -/
+def wfJobs (H : Bytes → Bytes) : HObj → Bool → List HEv → Bool
+  | _, _, [] => true
+  | o, m, e :: es =>
+    (match e with
+     | .cdel => m
+     | _ => true) && wfJobs H (hstep H o e) (mAfter o m e) es
+
+theorem compacted_idx (o : HObj) (h : (compactedSha o).isSome = true) : ∃ s, o.idx = some (s, true) := by
+  unfold compactedSha at h
+  split at h
+  · rename_i s hi; exact ⟨s, hi⟩
+  · simp at h
+
+theorem receive_keeps_compacted (H : Bytes → Bytes) (o : HObj) (q : Req)
+    (h : (compactedSha o).isSome = true) : (receive H o q).1 = o := by
+  unfold receive
+  cases hc : compactedSha o with
+  | none => rw [hc] at h; simp at h
+  | some s => simp only; unfold receiveCompacted; split <;> rfl
+
+/-- **the stamp survives**: once a job has stamped the receipt, no upload (any offset/body),
+reconcile, sweep, re-mark or source deletion clears it — this is where "compacted receipt is checked
+before file existence" (`C27_receipt_before_exists`) is used. -/
+theorem stamp_step (H : Bytes → Bytes) (o : HObj) (m : Bool) (e : HEv)
+    (hm : m = true → (compactedSha o).isSome = true)
+    (hidx : ∀ d, e = .compact d → o.final.isSome = true → o.idx.isSome = true)
+    (h : mAfter o m e = true) : (compactedSha (hstep H o e)).isSome = true := by
+  cases e with
+  | recv q => simp only [hstep]; rw [receive_keeps_compacted H o q (hm h)]; exact hm h
+  | recon =>
+    obtain ⟨s, hi⟩ := compacted_idx o (hm h)
+    simp only [hstep, forgetStale, hi]; exact hm h
+  | compact d =>
+    have hsome : o.idx.isSome = true := by
+      simp only [mAfter, Bool.or_eq_true] at h
+      rcases h with h | h
+      · exact hidx d rfl h
+      · obtain ⟨s, hi⟩ := compacted_idx o (hm h); simp [hi]
+    obtain ⟨⟨s, c⟩, hi⟩ := Option.isSome_iff_exists.mp hsome
+    simp [hstep, hubCompact, compactedSha, hi]
+  | cdel => simpa [hstep, hubCompactDelete, compactedSha] using hm h
+  | sweep => simpa [hstep, hubSweep, compactedSha] using hm h
+  | delete => simp [mAfter] at h
+  | plant b i => simp [mAfter] at h
 
 /-! ### exactly once -/
 
@@ -627,6 +697,7 @@ theorem receive_once (H : Bytes → Bytes) (o : HObj) (q : Req) (h : OnceSt o) :
 
 theorem hstep_once (H : Bytes → Bytes) (o : HObj) (e : HEv) (h : OnceSt o)
     (hc : ∀ d, e = .compact d → ¬ (o.final.isSome ∧ o.idx = none))
+    (hcd : e = .cdel → (compactedSha o).isSome = true)
     (hnd : isDelete e = false) (hnp : isPlant e = false) : OnceSt (hstep H o e) := by
   cases e with
   | recv q => exact receive_once H o q h
@@ -653,6 +724,13 @@ theorem hstep_once (H : Bytes → Bytes) (o : HObj) (e : HEv) (h : OnceSt o)
     | held h1 h2 h3 =>
       obtain ⟨⟨s, c⟩, hi⟩ := Option.isSome_iff_exists.mp h2
       exact .held h1 (by simp [hi]) (Or.inr (by simp [compactedSha, hi]))
+  | cdel =>
+    obtain ⟨s, hi⟩ := compacted_idx o (hcd rfl)
+    simp only [hstep, hubCompactDelete]
+    cases h with
+    | fresh h1 h2 h3 => rw [hi] at h3; cases h3
+    | orphan h1 h2 h3 => rw [hi] at h3; cases h3
+    | held h1 h2 h3 => exact .held h1 h2 (Or.inr (by simpa [compactedSha] using hcd rfl))
   | sweep =>
     simp only [hstep, hubSweep]
     cases h with
@@ -662,27 +740,38 @@ theorem hstep_once (H : Bytes → Bytes) (o : HObj) (e : HEv) (h : OnceSt o)
   | delete => simp [isDelete] at hnd
   | plant b i => simp [isPlant] at hnp
 
-theorem hrun_once (H : Bytes → Bytes) (evs : List HEv) (o : HObj) (h : OnceSt o)
-    (hc : noOrphanCompact H o evs = true) (hnd : ∀ e ∈ evs, isDelete e = false)
+theorem hrun_once (H : Bytes → Bytes) (evs : List HEv) (o : HObj) (m : Bool) (h : OnceSt o)
+    (hm : m = true → (compactedSha o).isSome = true)
+    (hc : noOrphanCompact H o evs = true) (hw : wfJobs H o m evs = true)
+    (hnd : ∀ e ∈ evs, isDelete e = false)
     (hnp : ∀ e ∈ evs, isPlant e = false) : OnceSt (hrun H o evs) := by
-  induction evs generalizing o with
+  induction evs generalizing o m with
   | nil => exact h
   | cons e es ih =>
     simp only [hrun, List.foldl]
     simp only [noOrphanCompact, Bool.and_eq_true] at hc
-    apply ih
-    · apply hstep_once H o e h
-      · intro d hd
-        subst hd
-        have := hc.1
-        simp only [Bool.not_eq_true', Bool.and_eq_false_iff] at this
-        intro ⟨h1, h2⟩
-        rcases this with t | t
-        · simp [h1] at t
-        · simp [h2] at t
+    simp only [wfJobs, Bool.and_eq_true] at hw
+    have hcarve : ∀ d, e = .compact d → ¬ (o.final.isSome ∧ o.idx = none) := by
+      intro d hd
+      subst hd
+      have := hc.1
+      simp only [Bool.not_eq_true', Bool.and_eq_false_iff] at this
+      intro ⟨h1, h2⟩
+      rcases this with t | t
+      · simp [h1] at t
+      · simp [h2] at t
+    apply ih _ (mAfter o m e)
+    · apply hstep_once H o e h hcarve
+      · intro hd; subst hd; exact hm (by simpa using hw.1)
       · exact hnd e (by simp)
       · exact hnp e (by simp)
+    · apply stamp_step H o m e hm
+      intro d hd hf
+      cases hi : o.idx with
+      | none => exact absurd ⟨hf, hi⟩ (hcarve d hd)
+      | some p => rfl
     · exact hc.2
+    · exact hw.2
     · intro e' he'; exact hnd e' (by simp [he'])
     · intro e' he'; exact hnp e' (by simp [he'])
 
@@ -703,13 +792,15 @@ theorem C27_hub_once_witness :
 
 /-- **C27_hub_once_partial.** Carve-out: no hub compaction consumes a promoted file that still lacks
 its receipt (`noOrphanCompact`, decidable on the history). Then under EVERY history of receive calls
-(any offsets/bodies, including failing index writes), reconciles, compactions and sweeps — without a
-genuine removal or a foreign writer — the receiver promotes the file of one (spoke, path) at most
+(any offsets/bodies, including failing index writes — so also redeliveries between a compaction job's
+mark and its deferred source deletion), reconciles, compaction marks, source deletions (`wfJobs`) and
+sweeps — without a genuine removal or a foreign writer — the receiver promotes the file of one (spoke, path) at most
 once: a second upload is answered from the stored file or from the (compacted) receipt. -/
 theorem C27_hub_once_partial (H : Bytes → Bytes) (evs : List HEv)
-    (hc : noOrphanCompact H {} evs = true) (hnd : ∀ e ∈ evs, isDelete e = false)
+    (hc : noOrphanCompact H {} evs = true) (hw : wfJobs H {} false evs = true)
+    (hnd : ∀ e ∈ evs, isDelete e = false)
     (hnp : ∀ e ∈ evs, isPlant e = false) : (hrun H {} evs).promotes ≤ 1 := by
-  have := hrun_once H evs {} (.fresh rfl rfl rfl) hc hnd hnp
+  have := hrun_once H evs {} false (.fresh rfl rfl rfl) (by simp) hc hw hnd hnp
   cases this with
   | fresh h1 _ _ => omega
   | orphan h1 _ _ => omega
@@ -719,8 +810,9 @@ theorem C27_hub_once_partial (H : Bytes → Bytes) (evs : List HEv)
 example :
     let orig : Bytes := [1, 2, 3]
     let q : Req := { sha := orig, size := 3, off := 0, body := orig, bodyErr := false, failRec := false }
-    let evs : List HEv := [.recv q, .recv q, .recon, .compact true, .recv q, .recon]
-    noOrphanCompact id {} evs = true ∧ (hrun id {} evs).promotes = 1 ∧ (hrun id {} evs).final = none := by decide
+    let evs : List HEv := [.recv q, .recv q, .recon, .compact false, .recv q, .recon, .cdel, .recon, .recv q]
+    noOrphanCompact id {} evs = true ∧ wfJobs id {} false evs = true ∧
+      (hrun id {} evs).promotes = 1 ∧ (hrun id {} evs).final = none := by decide
 
 /-! ### acknowledgments are sound and stay sound -/
 
@@ -802,6 +894,7 @@ theorem ack_recon_holds (H : Bytes → Bytes) (orig : Bytes) (o : HObj) (hco : C
     · cases hp
 
 theorem hstep_holds (H : Bytes → Bytes) (orig : Bytes) (o : HObj) (e : HEv) (h : Holds H orig o)
+    (hcd : e = .cdel → (compactedSha o).isSome = true)
     (hnd : isDelete e = false) (hnp : isPlant e = false) : Holds H orig (hstep H o e) := by
   obtain ⟨c, hi, hc⟩ := h
   cases e with
@@ -832,19 +925,33 @@ theorem hstep_holds (H : Bytes → Bytes) (orig : Bytes) (o : HObj) (e : HEv) (h
     · simp only [forgetStale, hi]
       exact ⟨true, hi, Or.inl rfl⟩
   | compact del => exact ⟨true, by simp [hstep, hubCompact, hi], Or.inl rfl⟩
+  | cdel =>
+    obtain ⟨s, hi'⟩ := compacted_idx o (hcd rfl)
+    rw [hi] at hi'
+    cases hi'
+    exact ⟨true, by simp [hstep, hubCompactDelete, hi], Or.inl rfl⟩
   | sweep => exact ⟨c, by simp [hstep, hubSweep, hi], by simpa [hstep, hubSweep] using hc⟩
   | delete => simp [isDelete] at hnd
   | plant b i => simp [isPlant] at hnp
 
-theorem hrun_holds (H : Bytes → Bytes) (orig : Bytes) (evs : List HEv) (o : HObj) (h : Holds H orig o)
+theorem hrun_holds (H : Bytes → Bytes) (orig : Bytes) (evs : List HEv) (o : HObj) (m : Bool)
+    (h : Holds H orig o) (hm : m = true → (compactedSha o).isSome = true)
+    (hw : wfJobs H o m evs = true)
     (hnd : ∀ e ∈ evs, isDelete e = false) (hnp : ∀ e ∈ evs, isPlant e = false) :
     Holds H orig (hrun H o evs) := by
-  induction evs generalizing o with
+  induction evs generalizing o m with
   | nil => exact h
   | cons e es ih =>
     simp only [hrun, List.foldl]
-    exact ih _ (hstep_holds H orig o e h (hnd e (by simp)) (hnp e (by simp)))
+    simp only [wfJobs, Bool.and_eq_true] at hw
+    refine ih _ (mAfter o m e)
+      (hstep_holds H orig o e h (fun hd => by subst hd; exact hm (by simpa using hw.1))
+        (hnd e (by simp)) (hnp e (by simp))) ?_ hw.2
       (fun e' he' => hnd e' (by simp [he'])) (fun e' he' => hnp e' (by simp [he']))
+    apply stamp_step H o m e hm
+    intro d _ _
+    obtain ⟨c, hi, _⟩ := h
+    simp [hi]
 
 /-- **C27_synced_sound.** HYPOTHESIS: collision-free digest. The only two events on which the agent
 marks a row synced (`C27_ack_sites`, and `C27_transitions`: `synced` is entered only by `MarkSynced`
@@ -852,28 +959,35 @@ and never left) are a transfer answered committed/already-present and a reconcil
 After ANY earlier history (any uploads, faults, compactions, sweeps, deletions), at either
 acknowledgment the hub holds the spoke's file with identical content — or the compacted receipt for
 it — and keeps holding it through EVERY later history of uploads (any offset/body), reconciles,
-compactions and sweeps; only a genuine hub-side removal or a foreign writer can end that. -/
+compactions (mark and deferred source deletion as separate events, `wfJobs`: a source deletion
+belongs to a job that stamped the receipt; `m` = such a job is already in progress at the
+acknowledgment) and sweeps; only a genuine hub-side removal or a foreign writer can end that. -/
 theorem C27_synced_sound (H : Bytes → Bytes) (hcf : CollisionFree H) (orig : Bytes)
     (before after : List HEv)
     (hdecl : ∀ q, HEv.recv q ∈ before → q.sha = H orig) (hnp : ∀ e ∈ before, isPlant e = false)
     (hnd' : ∀ e ∈ after, isDelete e = false) (hnp' : ∀ e ∈ after, isPlant e = false) :
-    (∀ q, q.sha = H orig → isAck (receive H (hrun H {} before) q).2 = true →
+    (∀ q m, q.sha = H orig → isAck (receive H (hrun H {} before) q).2 = true →
+      (m = true → (compactedSha (receive H (hrun H {} before) q).1).isSome = true) →
+      wfJobs H (receive H (hrun H {} before) q).1 m after = true →
       Holds H orig (hrun H (receive H (hrun H {} before) q).1 after)) ∧
-    (classify (forgetStale (hrun H {} before)) (H orig) = .present →
+    (∀ m, classify (forgetStale (hrun H {} before)) (H orig) = .present →
+      (m = true → (compactedSha (forgetStale (hrun H {} before))).isSome = true) →
+      wfJobs H (forgetStale (hrun H {} before)) m after = true →
       Holds H orig (hrun H (forgetStale (hrun H {} before)) after)) := by
   constructor
-  · intro q hq hack
-    exact hrun_holds H orig after _ (ack_put_holds H hcf orig _ q hq hack) hnd' hnp'
-  · intro hp
-    exact hrun_holds H orig after _
-      (ack_recon_holds H orig _ (hrun_content H hcf orig before {} hdecl hnp (Or.inl rfl)) hp) hnd' hnp'
+  · intro q m hq hack hm hw
+    exact hrun_holds H orig after _ m (ack_put_holds H hcf orig _ q hq hack) hm hw hnd' hnp'
+  · intro m hp hm hw
+    exact hrun_holds H orig after _ m
+      (ack_recon_holds H orig _ (hrun_content H hcf orig before {} hdecl hnp (Or.inl rfl)) hp) hm hw hnd' hnp'
 
 /-- non-vacuity: lost ack, then reconcile says present; the file is compacted away; still held. -/
 example :
     let orig : Bytes := [7, 8]
     let q : Req := { sha := orig, size := 2, off := 0, body := orig, bodyErr := false, failRec := false }
     classify (forgetStale (hrun id {} [.recv q])) orig = .present ∧
-    (hrun id (forgetStale (hrun id {} [.recv q])) [.compact true, .recv q, .recon]).idx = some (orig, true) := by
+    wfJobs id (forgetStale (hrun id {} [.recv q])) false [.compact false, .recv q, .cdel, .recv q, .recon] = true ∧
+    (hrun id (forgetStale (hrun id {} [.recv q])) [.compact false, .recv q, .cdel, .recv q, .recon]).idx = some (orig, true) := by
   decide
 
 /-! ## 4. termination of the per-file retry loop -/
